@@ -133,6 +133,33 @@ theorem crash_prefix_partial_content (orig : Tree) (hs : List Hunk) (cfg : Cfg) 
     subst hc'
     exact h
 
+/-- lock_never_observed_partial: `acquire` in the publish-by-hard-link variant (repo commit 35d666f), at EVERY crash
+    prefix and after every injected error: the lock path holds what it held before the command, nothing, or the
+    COMPLETE content — never an empty or half-written file.  (`l0` is arbitrary: also a leftover of an older version.) -/
+theorem lock_never_observed_partial (stale cleans : Bool) (s : St) :
+    LockStates (lookup s.t pLock) (acquireF true stale cleans s).st.t := by
+  have h := safe_acquire_link stale cleans (lookup s.t pLock) s rfl
+  cases hx : acquireF true stale cleans s with
+  | ok a s' => rw [hx] at h; exact h
+  | err e s' => rw [hx] at h; exact h
+  | crash s' => rw [hx] at h; exact h
+
+/-- … and each of these states lets the next `acquire` go ahead when a file that is not `pid:timestamp` is treated as
+    abandoned (`stale = true`, the code as it is): `lock_empty_window` cannot occur -/
+theorem lock_states_acquirable (l0 : Option Node) (t : Tree) (h : LockStates l0 t)
+    (h0 : l0 = none ∨ ∃ c m, l0 = some (.file c m)) : acquirableF true t = true := by
+  unfold acquirableF
+  rcases h with h | h | ⟨m, h⟩
+  · rw [h]
+    rcases h0 with h0 | ⟨c, m, h0⟩
+    · rw [h0]
+    · rw [h0]; simp
+  · rw [h]
+  · rw [h]; simp
+
+/-- the flags the model is built with at the code as it is (read from the source by translate/execflags.py) -/
+theorem lock_flags : ExecFlags.publishByLink = true ∧ ExecFlags.emptyLockIsStale = true := by decide
+
 -- concrete scenarios (kernel evaluated) -----------------------------------------------------------------------------
 
 def meta0 : Tree :=
@@ -147,47 +174,64 @@ def tApplied : Tree :=
   [ ([dotR], .dir 0o755), (pHist, .file (encodeHist [entryOld, entryApply]) 0o644) ]
 def restoreA : List (Path × Bytes) := [ ([b!"a.txt"], b!"foo"), ([b!"b.txt"], b!"foo") ]
 
-/-- the property at full strength: whatever the kill point of `apply`, the workspace is usable.  FALSE today. -/
+/-- the property at full strength: whatever the kill point of `apply`, the workspace is usable.
+    It was false before the repairs e12ff90 / 851189b / 35d666f (`C11_full_false` is conditional on the source flag and
+    vacuous now); for the code as it is it is not proved as one statement — see the phase theorems above. -/
 def C11_full : Prop :=
   ∀ (plan : Plan) (t : Tree) (inj : Inj),
-    Usable t plan.hunks (loadHist t) (run (cmdApply plan) t inj).st.t
+    Usable t plan.hunks (loadHist t) (run (bodyApply plan) t inj).st.t
 
 set_option maxRecDepth 100000 in
 /-- finding history_trunc_window: SIGKILL right after `openw history.json` (call 29): the file is empty, does not
     parse, and the next load starts an empty history — the earlier entry `O` is lost -/
 theorem C11_witness_history_trunc : ExecFlags.atomicHistorySave = false →
-    outcome (run (cmdApply plA) tA (.crashAfter 29)) = .crashed ∧
-    histParses (run (cmdApply plA) tA (.crashAfter 29)).st.t = false ∧
-    loadHist (run (cmdApply plA) tA (.crashAfter 29)).st.t = [] ∧ loadHist tA = [entryOld] := by decide +kernel
+    outcome (run (bodyApply plA) tA (.crashAfter 29)) = .crashed ∧
+    histParses (run (bodyApply plA) tA (.crashAfter 29)).st.t = false ∧
+    loadHist (run (bodyApply plA) tA (.crashAfter 29)).st.t = [] ∧ loadHist tA = [entryOld] := by decide +kernel
 
 set_option maxRecDepth 100000 in
 /-- … and the same in the middle of the write (call 30): half of the bytes do not parse either -/
 theorem C11_witness_history_trunc_mid : ExecFlags.atomicHistorySave = false →
-    histParses (run (cmdApply plA) tA (.crashMid 30)).st.t = false ∧
-    histParses (run (cmdApply plA) tA (.crashBefore 30)).st.t = false ∧
-    histParses (run (cmdApply plA) tA (.crashAfter 30)).st.t = true := by decide +kernel
+    histParses (run (bodyApply plA) tA (.crashMid 30)).st.t = false ∧
+    histParses (run (bodyApply plA) tA (.crashBefore 30)).st.t = false ∧
+    histParses (run (bodyApply plA) tA (.crashAfter 30)).st.t = true := by decide +kernel
 
 set_option maxRecDepth 100000 in
-/-- finding lock_empty_window: SIGKILL right after `openw renamify.lock` (call 1 of `rename`): an empty lock file
-    stays, and `acquire` can never succeed again -/
-theorem C11_witness_lock_empty : ExecFlags.emptyLockIsStale = false →
-    outcome (run (cmdRename plA) (tA.take 2) (.crashAfter 1)) = .crashed ∧
-    acquirable (run (cmdRename plA) (tA.take 2) (.crashAfter 1)).st.t = false ∧
-    outcome (run (cmdRename plA) (run (cmdRename plA) (tA.take 2) (.crashAfter 1)).st.t .none) = .fail ∧
-    acquirable (run (cmdRename plA) (tA.take 2) (.crashAfter 2)).st.t = true := by decide +kernel
+/-- the former finding lock_empty_window, BEFORE repo commit 35d666f (`acquireF false false false`: create_new, then
+    write): SIGKILL right after `openw renamify.lock` (call 1) leaves an EMPTY lock file, and that `acquire` can
+    never succeed again -/
+theorem lock_empty_window_before_35d666f :
+    outcome (run (acquireF false false false) (tA.take 2) (.crashAfter 1)) = .crashed ∧
+    lookup (run (acquireF false false false) (tA.take 2) (.crashAfter 1)).st.t pLock = some (.file [] 0o644) ∧
+    acquirableF false (run (acquireF false false false) (tA.take 2) (.crashAfter 1)).st.t = false ∧
+    outcome (run (acquireF false false false) (run (acquireF false false false) (tA.take 2) (.crashAfter 1)).st.t .none)
+      = .fail := by decide +kernel
+
+set_option maxRecDepth 100000 in
+/-- … and the code as it is on the same scenario: whatever the kill point (here: after each of the five calls of
+    `acquire`), the lock is absent or complete, a leftover `renamify.lock.<pid>.tmp` does not matter, and the next
+    `acquire` succeeds -/
+theorem lock_link_example :
+    (∀ k ∈ [0, 1, 2, 3, 4],
+      (lookup (run acquire (tA.take 2) (.crashAfter k)).st.t pLock = none ∨
+       lookup (run acquire (tA.take 2) (.crashAfter k)).st.t pLock = some (.file lockText 0o644)) ∧
+      outcome (run acquire (run acquire (tA.take 2) (.crashAfter k)).st.t .none) = .ok) ∧
+    lookup (run acquire (tA.take 2) (.crashAfter 2)).st.t pLockTmp = some (.file lockText 0o644) := by
+  decide +kernel
 
 set_option maxRecDepth 100000 in
 /-- finding undo_inplace_truncation: `undo` rewrites user files in place; SIGKILL right after `openw a.txt` (call 0)
     leaves `a.txt` EMPTY — neither the old nor the new content -/
 theorem C11_witness_undo_inplace : ExecFlags.undoViaTemp = false →
-    outcome (run (cmdUndo plA restoreA) tApplied (.crashAfter 0)) = .crashed ∧
-    lookup (run (cmdUndo plA restoreA) tApplied (.crashAfter 0)).st.t [b!"a.txt"] = some (.file [] 0o644) := by
+    outcome (run (bodyUndo plA restoreA) tApplied (.crashAfter 0)) = .crashed ∧
+    lookup (run (bodyUndo plA restoreA) tApplied (.crashAfter 0)).st.t [b!"a.txt"] = some (.file [] 0o644) := by
   decide +kernel
 
 set_option maxRecDepth 100000 in
 theorem C11_full_false : ExecFlags.atomicHistorySave = false → ¬ C11_full := by
   intro hf h
   have := (h plA tA (.crashAfter 29)).2.1.1
+  change histParses (run (bodyApply plA) tA (.crashAfter 29)).st.t = true at this
   have h2 := (C11_witness_history_trunc hf).2.1
   rw [h2] at this
   cases this
@@ -197,8 +241,8 @@ set_option maxRecDepth 100000 in
     (call 6) indeed leaves a half-written TEMP file next to an intact `a.txt` -/
 theorem content_edit_atomic_example :
     (sortedFiles plA.hunks).Nodup ∧
-    lookup (run (cmdApply plA) tA (.crashMid 6)).st.t [b!"a.txt"] = some (.file b!"foo" 0o644) ∧
-    lookup (run (cmdApply plA) tA (.crashMid 6)).st.t [b!"a.PID.renamify.tmp"] = some (.file b!"b" 0o644) := by
+    lookup (run (bodyApply plA) tA (.crashMid 6)).st.t [b!"a.txt"] = some (.file b!"foo" 0o644) ∧
+    lookup (run (bodyApply plA) tA (.crashMid 6)).st.t [b!"a.PID.renamify.tmp"] = some (.file b!"b" 0o644) := by
   decide +kernel
 
 end C11
